@@ -1,0 +1,8 @@
+//go:build !verif
+
+// Package verifhook provides named yield points used by the verification harness.
+// Without the `verif` build tag At is an empty function that the compiler inlines away.
+package verifhook
+
+// At marks a named point in the code. It does nothing unless built with -tags verif.
+func At(string) {}
